@@ -240,11 +240,9 @@ def big_equiv(ctx):
             ("MC_BigAnsEquiv", {"W": 3, "S": 6, "LB": 2, "MaxBulk": 1, "MaxInit": 3}, ["Queries", "Steps", "Imports"]),
             ("MC_BigRangeEquiv", {"W": 2, "S": 4, "LB": 1, "MaxData": 3, "MaxSitN": 2}, ["EncQueries", "EncSteps", "DecAll"])]
     if th:
-        runs += [("MC_BigArith", {"LB": 1, "N": 300, "K": 9}, runs[0][2]), ("MC_BigArith", {"LB": 5, "N": 1200, "K": 11}, runs[0][2]),
-                 ("MC_BigAnsEquiv", {"W": 2, "S": 8, "LB": 3, "MaxBulk": 1, "MaxInit": 5}, ["Queries", "Steps", "Imports"]),
-                 ("MC_BigAnsEquiv", {"W": 4, "S": 8, "LB": 3, "MaxBulk": 1, "MaxInit": 2}, ["Queries", "Steps", "Imports"]),
-                 ("MC_BigRangeEquiv", {"W": 2, "S": 4, "LB": 2, "MaxData": 3, "MaxSitN": 2}, ["EncQueries", "EncSteps", "DecAll"]),
-                 ("MC_BigRangeEquiv", {"W": 3, "S": 6, "LB": 2, "MaxData": 1, "MaxSitN": 1}, ["EncQueries", "EncSteps", "DecAll"])]
+        runs += [("MC_BigArith", {"LB": 1, "N": 200, "K": 8}, runs[0][2]), ("MC_BigArith", {"LB": 5, "N": 400, "K": 11}, runs[0][2]),
+                 ("MC_BigAnsEquiv", {"W": 2, "S": 8, "LB": 3, "MaxBulk": 1, "MaxInit": 4}, ["Queries", "Steps", "Imports"]),
+                 ("MC_BigRangeEquiv", {"W": 2, "S": 4, "LB": 2, "MaxData": 3, "MaxSitN": 2}, ["EncQueries", "EncSteps", "DecAll"])]
     for (module, consts, invs) in runs:
         st = ctx.tlc(module, consts, invariants=invs, workers=12, timeout=3000, label=module)
         if st["spec_violation"]:
@@ -663,7 +661,7 @@ def chain_traces(ctx):
             jobs.append(big_job(ctx, "TraceBigChain", base, w, s, "ChainCoder<%d,%d> exact (limb arithmetic)" % (w, s), max_events=None if ctx.tier == "thorough" else 2500))
     # the limb specification is tied to Chain.tla by an exhaustive equivalence check at small widths
     for consts in ([{"W": 2, "S": 6, "LB": 1, "MaxStack": 1, "MaxData": 4}, {"W": 2, "S": 4, "LB": 1, "MaxStack": 2, "MaxData": 4}]
-                   + ([{"W": 3, "S": 6, "LB": 2, "MaxStack": 1, "MaxData": 3}, {"W": 2, "S": 8, "LB": 3, "MaxStack": 1, "MaxData": 5}, {"W": 4, "S": 8, "LB": 3, "MaxStack": 1, "MaxData": 2}] if ctx.tier == "thorough" else [])):
+                   + ([{"W": 3, "S": 6, "LB": 2, "MaxStack": 1, "MaxData": 3}] if ctx.tier == "thorough" else [])):
         st = ctx.tlc("MC_BigChainEquiv", consts, invariants=["Queries", "Steps", "Changes", "Ctors"], workers=12, timeout=3000, label="MC_BigChainEquiv")
         if st["spec_violation"]:
             raise core.ToolError("MC_BigChainEquiv: %s fails with %s\n%s" % (st["spec_violation"], consts, st.get("counterexample", "")))
